@@ -21,8 +21,7 @@ from harness import chunkzoo as zoo
 from harness import common
 from harness.fakes3 import FakeS3
 from katdal import chunkstore, chunkstore_s3
-from katdal.chunkstore import (BadChunk, ChunkNotFound, ChunkStore, ChunkStoreError, PlaceholderChunk,
-                               StoreUnavailable)
+from katdal.chunkstore import BadChunk, ChunkNotFound, ChunkStore, ChunkStoreError, StoreUnavailable
 from katdal.chunkstore_dict import DictChunkStore
 from katdal.chunkstore_npy import NpyFileChunkStore
 from katdal.chunkstore_s3 import S3ChunkStore, read_array
@@ -924,7 +923,6 @@ print('RESULT ' + json.dumps(out))
 '''
 
 SYSCALLS = 'openat,open,creat,write,pwrite64,writev,rename,renameat,renameat2,ftruncate,truncate,close,unlink,unlinkat,link,linkat'
-N_ELEMS = 700
 
 
 def have_strace():
@@ -935,15 +933,32 @@ def unhex(s):
     return bytes(int(h, 16) for h in re.findall(r'\\x([0-9a-f]{2})', s))
 
 
+def merge_unfinished(text):
+    """Join `call(args <unfinished ...>` with its `<... call resumed>rest` line (strace -f)."""
+    pending = {}
+    out = []
+    for line in text.splitlines():
+        m = re.match(r'^(\d+)\s+(.*) <unfinished \.\.\.>$', line)
+        if m:
+            pending[m.group(1)] = m.group(2)
+            continue
+        m = re.match(r'^(\d+)\s+<\.\.\. \w+ resumed>(.*)$', line)
+        if m and m.group(1) in pending:
+            out.append(f'{m.group(1)} {pending.pop(m.group(1))}{m.group(2)}')
+            continue
+        out.append(line)
+    for pid, head in pending.items():      # killed inside the call
+        out.append(f'{pid} {head}) = ?')
+    return out
+
+
 def parse_trace(text, tmp, fin):
     """strace -xx output -> list of (token, outcome) for the main writer; outcome in ok|err|killed."""
     ops = []
     fds = {}
-    for line in text.splitlines():
+    for line in merge_unfinished(text):
         m = re.match(r'^\d+\s+(\w+)\((.*)\)\s+=\s+(\S+)', line)
         if not m:
-            if 'unfinished' in line or 'resumed' in line:
-                raise common.Broken('interleaved strace output: ' + line[:120])
             continue
         call, args, ret = m.groups()
         outcome = 'killed' if ret == '?' else ('err' if ret.startswith('-') else 'ok')
@@ -979,13 +994,13 @@ def parse_trace(text, tmp, fin):
     return ops
 
 
-def run_put(d, direct, inject, tracefile):
+def run_put(d, direct, inject, tracefile, n_elems):
     tmp = os.path.join(d, 'x', '00000.writing.npy')
     fin = os.path.join(d, 'x', '00000.npy')
     cmd = ['strace', '-f', '-o', tracefile, '-e', f'trace={SYSCALLS}', '-xx', '-s', '1000000', '-P', tmp, '-P', fin]
     if inject:
         cmd += ['-e', f'inject={inject}']
-    cmd += [sys.executable, '-c', WRITER, d, '1' if direct else '0', str(N_ELEMS)]
+    cmd += [sys.executable, '-c', WRITER, d, '1' if direct else '0', str(n_elems)]
     env = dict(os.environ, OPENBLAS_NUM_THREADS='1', OMP_NUM_THREADS='1', MKL_NUM_THREADS='1')
     p = subprocess.run(cmd, capture_output=True, text=True, env=env, timeout=300)
     m = re.search(r'^PUT (\S+)$', p.stdout, re.M)
@@ -993,16 +1008,23 @@ def run_put(d, direct, inject, tracefile):
     return status, open(tracefile).read() if os.path.exists(tracefile) else '', p.stderr[-400:]
 
 
-def prepare_dir(base, idx, with_old):
+def prepare_dir(base, idx, with_old, n_elems):
     d = os.path.join(base, f'run{idx}')
     os.makedirs(os.path.join(d, 'x'))
     if with_old:
-        np.save(os.path.join(d, 'x', '00000.npy'), -np.arange(N_ELEMS, dtype=np.float64))
+        np.save(os.path.join(d, 'x', '00000.npy'), -np.arange(n_elems, dtype=np.float64))
     return d
 
 
-def run_crash_cases(ctx, direct_modes=(False, True), thorough=False):
+def run_crash_cases(ctx, direct_modes=(False, True), thorough=False, sizes=None):
     """Returns list of (case, violation)."""
+    bad = []
+    for n_elems in (sizes or ([5, 700, 40000] if thorough else [700])):
+        bad += run_crash_cases_size(ctx, direct_modes, n_elems)
+    return bad
+
+
+def run_crash_cases_size(ctx, direct_modes, n_elems):
     bad = []
     if not have_strace():
         ctx.tag('crash-skipped-no-strace')
@@ -1018,8 +1040,8 @@ def run_crash_cases(ctx, direct_modes=(False, True), thorough=False):
         for direct in direct_modes:
             for with_old in (False, True):
                 idx += 1
-                d = prepare_dir(base, idx, with_old)
-                st, tr, err = run_put(d, direct, None, os.path.join(base, f'trace{idx}'))
+                d = prepare_dir(base, idx, with_old, n_elems)
+                st, tr, err = run_put(d, direct, None, os.path.join(base, f'trace{idx}'), n_elems)
                 if st == 'notstarted':
                     ctx.tag('crash-skipped-strace-failed')
                     ctx.advise('strace could not run the writer: ' + err)
@@ -1027,7 +1049,7 @@ def run_crash_cases(ctx, direct_modes=(False, True), thorough=False):
                 plain[(direct, with_old)] = (d, st, tr)
         if old_blob is None:
             fp = io.BytesIO()
-            np.save(fp, -np.arange(N_ELEMS, dtype=np.float64))
+            np.save(fp, -np.arange(n_elems, dtype=np.float64))
             old_blob = fp.getvalue()
         runs = []
         for (direct, with_old), (d, st, tr) in plain.items():
@@ -1050,15 +1072,15 @@ def run_crash_cases(ctx, direct_modes=(False, True), thorough=False):
                         idx += 1
                         with_old = (idx % 3 != 0)
                         jobs.append(dict(direct=direct, with_old=with_old, inject=inj,
-                                         dir=prepare_dir(base, idx, with_old), trace_file=os.path.join(base, f'trace{idx}')))
+                                         dir=prepare_dir(base, idx, with_old, n_elems), trace_file=os.path.join(base, f'trace{idx}')))
         with concurrent.futures.ThreadPoolExecutor(max_workers=12) as ex:
-            futs = {ex.submit(run_put, j['dir'], j['direct'], j['inject'], j['trace_file']): j for j in jobs}
+            futs = {ex.submit(run_put, j['dir'], j['direct'], j['inject'], j['trace_file'], n_elems): j for j in jobs}
             for f in concurrent.futures.as_completed(futs):
                 j = futs[f]
                 st, tr, err = f.result()
                 runs.append(dict(j, status=st, trace=tr))
         # 3. one fresh reader process for all directories
-        p = subprocess.run([sys.executable, '-c', READER, str(N_ELEMS)] + [r['dir'] for r in runs],
+        p = subprocess.run([sys.executable, '-c', READER, str(n_elems)] + [r['dir'] for r in runs],
                            capture_output=True, text=True, timeout=300)
         m = re.search(r'^RESULT (.*)$', p.stdout, re.M)
         if not m:
@@ -1070,12 +1092,12 @@ def run_crash_cases(ctx, direct_modes=(False, True), thorough=False):
             tmp = os.path.join(r['dir'], 'x', '00000.writing.npy')
             fin = os.path.join(r['dir'], 'x', '00000.npy')
             r['ops'] = parse_trace(r['trace'], tmp, fin)
-            toks = [t for t, o in r['ops'] if o == 'ok']
+            toks = [t for t, o in r['ops'] if o == 'ok' and not t.startswith('X:')]
             r['effective'] = toks
             lines.append(f"fs {hexs(old_blob) if r['with_old'] else 'none'} {' '.join(toks)}".rstrip())
         replies = common.run_model('C08', lines)
         for r, rep in zip(runs, replies):
-            case = dict(kind='crash', direct=r['direct'], with_old=r['with_old'], inject=r['inject'])
+            case = dict(kind='crash', direct=r['direct'], with_old=r['with_old'], inject=r['inject'], n=n_elems)
             view = seen[r['dir']]
             before = 'old' if r['with_old'] else 'absent'
             v = None
@@ -1098,7 +1120,10 @@ def run_crash_cases(ctx, direct_modes=(False, True), thorough=False):
                 v = f"an injected {r['inject']} failure was swallowed: put_chunk reported success"
             # correspondence with the model
             bad_tok = [t for t, _ in r['ops'] if t.startswith('X:')]
-            kind, mtmp, mfin = re.match(r'^(\w+) tmp=(\S+) fin=(\S+)$', rep).groups()
+            mm = re.match(r'^(\w+) tmp=(\S+) fin=(\S+)$', rep)
+            if not mm:
+                raise common.Broken(f'model driver cannot replay the trace: {rep!r}')
+            kind, mtmp, mfin = mm.groups()
             if v is None and bad_tok:
                 v = f'real trace contains operations outside the model\'s op language: {bad_tok[:3]}'
             if v is None:
@@ -1116,7 +1141,7 @@ def run_crash_cases(ctx, direct_modes=(False, True), thorough=False):
                 elif dtmp != mtmp and not (r['inject'] and 'error=' in r['inject']):
                     v = 'model file system disagrees with the disk about the temp name after replaying the real trace'
             ctx.traces_validated += 1
-            ctx.count(('crash', r['direct'], r['with_old'], r['inject']), r['inject'] is not None,
+            ctx.count(('crash', n_elems, r['direct'], r['with_old'], r['inject']), r['inject'] is not None,
                       sample={'crash': r['inject'], 'direct': r['direct'], 'status': r['status'], 'reader': view,
                               'ops': [t[:10] for t, _ in r['ops']]} if r['inject'] and 'when=2' in r['inject'] else None)
             if v:
@@ -1194,8 +1219,8 @@ def evaluate(ctx, cases, env):
             continue
         if k == 'crash':
             # replay of one crash case: rerun the family for that mode
-            bad += [b for b in run_crash_cases(ctx, direct_modes=(c['direct'],))
-                    if b[0]['inject'] == c['inject'] and b[0]['with_old'] == c['with_old']]
+            bad += [b for b in run_crash_cases(ctx, direct_modes=(c['direct'],), sizes=[c.get('n', 700)])
+                    if b[0]['inject'] == c['inject']]
             continue
         if k == 'table':
             bad += [b for b in run_table_cases(ctx, env) if b[0] == c]
